@@ -195,6 +195,17 @@ def rule_codec_shape(ctx, repo):
                     other = b_.comparators[0] if norm(b_.left) == a_ else (b_.left if norm(b_.comparators[0]) == a_ else None)
                     if other is not None and repo.fold(other, fi.module) == marker:
                         return 'ok', 'takewhile over the leading run'
+        # len(X) - len(X.lstrip(M)): the leading run;  .strip / .rstrip count (also) the trailing run
+        if isinstance(e, ast.BinOp) and isinstance(e.op, ast.Sub) and isinstance(e.left, ast.Call) and norm(e.left.func) == 'len' and isinstance(e.right, ast.Call) \
+                and norm(e.right.func) == 'len' and len(e.right.args) == 1 and isinstance(e.right.args[0], ast.Call) and isinstance(e.right.args[0].func, ast.Attribute) \
+                and e.right.args[0].func.attr in ('lstrip', 'strip', 'rstrip') and len(e.left.args) == 1 and norm(e.left.args[0]) == norm(e.right.args[0].func.value):
+            how = e.right.args[0].func.attr
+            mk = repo.fold(e.right.args[0].args[0], fi.module) if e.right.args[0].args else None
+            sq = seq_ok(e.left.args[0])
+            if how == 'lstrip' and mk in (marker, bytes([marker]) if isinstance(marker, int) else marker) and sq is True:
+                return 'ok', 'length of the leading run (lstrip)'
+            if how in ('strip', 'rstrip'):
+                return 'bad', 'the count `%s` includes the run at the END of the value: every trailing marker adds a spurious leading one' % norm(e)[:60]
         return 'unknown', 'count is `%s`' % norm(e)[:70]
 
     def pad_rule(fi, which, zero, seq_ok, marker, what_left, what_count):
